@@ -267,7 +267,9 @@ def one_run(ctx, sc, decider, hooks, cls, seen, check_every=1, snapshot_every=40
     h = hashlib.sha1(repr(s.decisions).encode()).hexdigest()[:16]
     seen.add(h)
     nontriv = st["in_op_switch"] > 0
-    ctx.case(cls, key=h if nontriv else None, nontrivial=nontriv)
+    ctx.case(cls, key=h if nontriv else None, nontrivial=nontriv,
+             sample=dict(curve=sc.curve.name, plans=sc.plans, yield_points=s.steps, context_switches=s.switches, decisions_prefix=s.decisions[:60],
+                         results={str(i): r for i, r in results.items()}) if ctx.want(cls) and nontriv else None)
     ctx.count("yield_points", s.steps)
     ctx.count("context_switches", s.switches)
     ctx.count("invariant_checks", st["n_inv"])
